@@ -370,6 +370,38 @@ def with_bytes_keys(rng, t1, t2):
     return a, b
 
 
+def multiline_pairs(ctx, base, n):
+    """pairs in which one position common to both sides holds two multi-line strings / ASCII bytes (differing in
+    content, only in line terminators, or not at all): the 'diff' text of values_changed"""
+    rng = ctx.rng
+    out = []
+    for t1, t2 in rng.sample(base, min(len(base), 3 * n)):
+        pos = [p for p in V.positions(t1) if p]
+        rng.shuffle(pos)
+        for p in pos[:6]:
+            try:
+                V.get_at(t2, p)
+            except Exception:
+                continue
+            a, b = rng.choice(V.ML_PAIRS)
+            if rng.random() < 0.5:
+                a, b = b, a
+            if isinstance(a, str) and isinstance(b, str) and rng.random() < 0.3:
+                try:
+                    a, b = a.encode("ascii"), b.encode("ascii")
+                except UnicodeEncodeError:
+                    pass
+            try:
+                out.append((V.set_at(copy.deepcopy(t1), p, a), V.set_at(copy.deepcopy(t2), p, b)))
+                ctx.count("gen:multiline:" + type(a).__name__)
+            except TypeError:
+                continue
+            break
+        if len(out) >= n:
+            break
+    return out
+
+
 def length_pairs(ctx, n):
     """lists / tuples of different length at every depth (zip_ordered_iterables compares position by position and
     reports the longer side's tail): a sequence of t1 truncated or extended by 1-3 items (scalars and containers)"""
@@ -650,15 +682,16 @@ def run(ctx):
     # container object of t1 sits at 2-3 sibling positions (a tree for the diff; lead's broadcast, point 2)
     bk = [with_bytes_keys(rng, a, b) for a, b in rng.sample(rnd, max(1, len(rnd) * 12 // 100))]
     ctx.count("pairs:bytes_dict_keys", len(bk))
-    ln = length_pairs(ctx, 2000 if ctx.thorough else 250)
-    sh = [(a, b) for a, b, _k, _c in gen_shared_pairs(ctx, 5000 if ctx.thorough else 800)]
+    ln = length_pairs(ctx, 1000 if ctx.thorough else 250) + multiline_pairs(ctx, rnd, 800 if ctx.thorough else 200)
+    sh = [(a, b) for a, b, _k, _c in gen_shared_pairs(ctx, 3000 if ctx.thorough else 800)]
     ctx.count("pairs:shared_sibling_containers", len(sh))
     n_plain = len(pairs) + len(rnd) + len(bk) + len(ln)
     n_std = len(pairs) + len(rnd)
     for i, (t1, t2) in enumerate(pairs + rnd + bk + ln + sh):
         ip = (i % 2 == 0)
         t1, t2 = stable_order(t1), stable_order(t2)
-        low = (0, 1)[(i // 3) % 2] if i % 3 == 0 else None                 # a third of the pairs also at verbose_level 0 / 1
+        lowk = 6 if ctx.thorough else 3                                     # a third (thorough: a sixth) of the pairs also at verbose_level 0 / 1
+        low = (0, 1)[(i // lowk) % 2] if i % lowk == 0 else None
         pos = POS if i % 10 else dict(POS, threshold_to_diff_deeper=0.0)    # the float spelling of the threshold
         special = None if i < n_std else "bytes_dict_keys" if i < n_std + len(bk) else "different_length" if i < n_plain else "shared_containers"
         one_pair(ctx, t1, t2, ip, cases_model, cases_spec, cases_specs, shared=(i >= n_plain), low=low, pos=pos, special=special)
@@ -694,7 +727,7 @@ def run(ctx):
     # beyond C03's stated universe: datetimes / dates / times / timedeltas / Decimals inside the model (Diff/XuModel.v,
     # Diff/XuSpec.v): positional mode, model vs implementation, Coq definition vs implementation where it applies literally
     from harness import xucommon as XU
-    XU.stream_c03(ctx, XU.gen_pairs(ctx.rng, 60 if ctx.thorough else 6))
+    XU.stream_c03(ctx, XU.gen_pairs(ctx.rng, 40 if ctx.thorough else 6))
 
 
 def replay(ctx, data):
